@@ -46,6 +46,40 @@ def ctrl_case(ctx, p):
                       f'program {p!r} bytes {code.hex()}: {r.detail}')
 
 
+def rec_case(ctx, p):
+    for variant in spaces.REC_VARIANTS:
+        code = spaces.render_rec(p, variant)
+        r = compare(code)
+        ctx.ran(2)
+        ctx.state((code,))
+        if r.verdict == 'agree':
+            ctx.outcome('agree:' + r.why)
+            ctx.trans(len(p) + 2)
+            if r.impl[1] is not None:
+                ctx.state(('final', tuple(r.impl[1])))
+        elif r.verdict == 'unspec':
+            ctx.unspec(r.why)
+        else:
+            ctx.violation({'space': 'CTRL rec', 'why': r.why, 'features': ctrl_features(p)},
+                          f'program {p!r} budget/tail {variant} bytes {code.hex()}: {r.detail}')
+    ctx.evaluations += len(spaces.REC_VARIANTS) - 1
+
+
+def malformed_case(ctx, case):
+    p, kind, pos, code = case
+    r = compare(code)
+    ctx.ran(2)
+    ctx.state((code,))
+    if r.verdict == 'agree':
+        ctx.outcome('agree:' + r.why)
+        ctx.trans(len(p) + 1)
+    elif r.verdict == 'unspec':
+        ctx.unspec(r.why)
+    else:
+        ctx.violation({'space': 'CTRL malformed', 'why': r.why, 'kind': kind.split('+')[0]},
+                      f'program {p!r} {kind} at {pos}: bytes {code.hex()}: {r.detail}')
+
+
 def step_case(ctx, case):
     code, cfg = case
     ro, cache0, flags, limits, contracts = stepspace.config(cfg, ctx.seed)
@@ -65,7 +99,15 @@ def step_case(ctx, case):
 def blocks(tier, seed):
     q = tier == 'quick'
     nfull, nskel, nchain = (3, 4, 3) if q else (5, 5, 4)
+    nmal = 2 if q else 3
+    nrec = 4 if q else 5
     bl = [
+        Block('CTRL_rec', lambda s, n: spaces.progs_upto(nrec, 'rec', s, n), rec_case,
+              'every program of the bounded-recursion grammar (guarded self-call with a data budget, FAIL, RETURN, TRY, DEF, '
+              'IF, LOOP, EVAL) with <= %d nodes x budget {1,2} x final CALL0 bare / inside TRY' % nrec, nshards=64 if q else 1024, backstop=30 if q else 120),
+        Block('CTRL_malformed', lambda s, n: spaces.malformed(nmal, 'full', s, n), malformed_case,
+              'every byte-prefix and every single-byte perturbation (+1, -1, +200) of every full-grammar program with <= %d nodes' % nmal,
+              nshards=64 if q else 256, backstop=30),
         Block('CTRL_full', lambda s, n: spaces.progs_upto(nfull, 'full', s, n), ctrl_case,
               'every program of the full control grammar with <= %d nodes' % nfull, nshards=64 if q else 1024, backstop=30 if q else 120),
         Block('CTRL_skel', lambda s, n: spaces.progs_upto(nskel, 'skel', s, n), ctrl_case,
